@@ -77,7 +77,15 @@ func (h *DirHandler) AddOut(msg *fbb.Message) error {
 		return err
 	}
 
+	if !validMID(msg.MID()) {
+		return fmt.Errorf("Invalid MID %q", msg.MID())
+	}
 	return writeFileAtomic(path.Join(h.MBoxPath, DIR_OUTBOX, msg.MID()+Ext), data, 0644)
+}
+
+// validMID reports whether MID can be used as a file name inside a mailbox folder.
+func validMID(MID string) bool {
+	return MID != "" && MID != "." && MID != ".." && !strings.ContainsAny(MID, "/\\\x00")
 }
 
 // writeFileAtomic writes data to a temporary file in the same directory and renames it into place,
@@ -107,6 +115,9 @@ func writeFileAtomic(filename string, data []byte, perm os.FileMode) error {
 func (h *DirHandler) ProcessInbound(msgs ...*fbb.Message) (err error) {
 	dir := path.Join(h.MBoxPath, DIR_INBOX)
 	for _, m := range msgs {
+		if !validMID(m.MID()) {
+			return fmt.Errorf("Invalid MID %q", m.MID())
+		}
 		filename := path.Join(dir, m.MID()+Ext)
 
 		m.Header.Set("X-Unread", "true")
@@ -128,6 +139,10 @@ func (h *DirHandler) GetInboundAnswer(p fbb.Proposal) fbb.ProposalAnswer {
 		return fbb.Defer
 	}
 
+	if !validMID(p.MID()) {
+		return fbb.Reject
+	}
+
 	// Check if file exists
 	f, err := os.Open(path.Join(h.MBoxPath, DIR_INBOX, p.MID()+Ext))
 	if err == nil {
@@ -143,6 +158,9 @@ func (h *DirHandler) GetInboundAnswer(p fbb.Proposal) fbb.ProposalAnswer {
 }
 
 func (h *DirHandler) SetSent(MID string, rejected bool) {
+	if !validMID(MID) {
+		log.Fatalf("Invalid MID %q", MID)
+	}
 	oldPath := path.Join(h.MBoxPath, DIR_OUTBOX, MID+Ext)
 	newPath := path.Join(h.MBoxPath, DIR_SENT, MID+Ext)
 
